@@ -83,6 +83,7 @@ class Prog:
     storage: dict[tuple[int, int], int] = field(default_factory=dict)  # concrete initial storage
     static: bool = False
     create: bool = False  # the message is a creation: calldata is the init code
+    symstore: set = field(default_factory=set)  # accounts whose storage is symbolic (arbitrary initial contents)
     name: str = ""
     meta: dict = field(default_factory=dict)
 
@@ -122,6 +123,8 @@ def build_exec(prog: Prog, sevm: SEVM, solver) -> object:
     code = {con_addr(a): Contract(c) for a, c in prog.accounts.items()}
     storage = {a: sevm.mk_storagedata() for a in code}
     tstorage = {a: sevm.mk_storagedata() for a in code}
+    for a in prog.symstore:
+        storage[con_addr(a)].symbolic = True  # what svm.enableSymbolicStorage(a) does
     target = con_addr(prog.target)
     cd = ByteVec()
     for item in prog.calldata:
@@ -206,6 +209,15 @@ def path_rec(ex) -> PathRec:
 
 def run(prog: Prog, *cli: str, args=None) -> HRun:
     """Symbolically execute the message of `prog`; returns every yielded path."""
+    # pseudo option of the harness: `--verif-unknown all` / `--verif-unknown <seed>` makes the branching solver
+    # (Path.check, behind halmos' quick syntactic checks) answer `unknown` always / for a seeded half of its calls,
+    # as it does when --solver-timeout-branching expires
+    cli = list(cli)
+    inject = None
+    if "--verif-unknown" in cli:
+        i = cli.index("--verif-unknown")
+        inject = cli[i + 1]
+        del cli[i : i + 2]
     args = args or mk_args("--solver-timeout-branching", "0", *cli)
     sevm = SEVM(args, FunctionInfo("Verif", "run", "run()", "c0406226"))
     solver = hmain.mk_solver(args)
@@ -215,6 +227,20 @@ def run(prog: Prog, *cli: str, args=None) -> HRun:
         BuildOut().set_build_out({})  # what run_contract does before any execution
     paths = []
     exc = None
+    orig_check = Path.check
+    if inject is not None:
+        import random as _random
+
+        import z3 as _z3
+
+        rnd = None if inject == "all" else _random.Random(int(inject))
+
+        def check(self, cond):
+            if rnd is None or rnd.random() < 0.5:
+                return _z3.unknown
+            return orig_check(self, cond)
+
+        Path.check = check
     with captured_logs() as buf:
         try:
             ex0 = build_exec(prog, sevm, solver)
@@ -224,4 +250,5 @@ def run(prog: Prog, *cli: str, args=None) -> HRun:
             exc = f"{type(e).__name__}: {e}"
         finally:
             warnings = buf.getvalue()
+            Path.check = orig_check
     return HRun(paths=paths, bounded=len(sevm.logs.bounded_loops), warnings=warnings, exception=exc)
